@@ -769,9 +769,9 @@ func (s *Server) logReq(coq, text string, ok bool) {
 	if !ok {
 		okT = "REJECTED"
 	}
-	s.log = append(s.log, Item{Seq: s.clock.Next(), Mutating: true,
+	s.log = append(s.log, journaled(Item{Seq: s.clock.Next(), Mutating: true,
 		Coq:  fmt.Sprintf("IReq %s %s %s %s", coq, emit.Bool(ok), natList(m), optNatList(has, inv)),
-		Text: fmt.Sprintf("REQ %s %s m%s s%s", text, okT, textList(m), st)})
+		Text: fmt.Sprintf("REQ %s %s m%s s%s", text, okT, textList(m), st)}))
 }
 
 // cancelHook implements CDuringReq (lock NOT held).
